@@ -406,6 +406,59 @@ func runC14(c *Ctx) {
 		c.verdict(len(iters) == 2 && len(bad) == 0, c.nm(fn)+" | both source iterators cover [index(startHeight), index(endHeight)]", c.P.Pos(fn.Pos()), "2 iterators bounded by the region's own heights", join(bad)+fmt.Sprintf(" (%d iterators)", len(iters)), c.ats(iters)...)
 	})
 
+	c.rule("C14.V4", "repeating an import changes nothing: the regions of an Import call are worked out from the target stores as they are in that call - in determineProcessingRegions the two tip heights (the ones handed to determineDivergenceSyncModes and used for the region bounds) are the height results of TargetBlockHeaderStore.ChainTip() and TargetFilterHeaderStore.ChainTip() called there, on every path; tips remembered from an earlier call make a second Import on the same importer append the same headers again", func() {
+		fn := c.fn("(*chainimport.headersImport).determineProcessingRegions")
+		optB := c.field("chainimport", "ImportOptions", "TargetBlockHeaderStore")
+		optF := c.field("chainimport", "ImportOptions", "TargetFilterHeaderStore")
+		tipOf := func(v ssa.Value, store *types.Var) bool {
+			ex, ok := ir.Strip(v).(*ssa.Extract)
+			if !ok || ex.Index != 1 {
+				return false
+			}
+			call, ok := ex.Tuple.(*ssa.Call)
+			if !ok || !call.Call.IsInvoke() || call.Call.Method.Name() != "ChainTip" {
+				return false
+			}
+			return loadsField(store)(call.Call.Value)
+		}
+		// the two tip heights: results of ChainTip calls on the target stores
+		// made here, never merged with a value from elsewhere
+		var tips []ssa.Value
+		nB, nF := 0, 0
+		ir.Instrs(fn, func(in ssa.Instruction) {
+			ex, ok := in.(*ssa.Extract)
+			if !ok {
+				return
+			}
+			switch {
+			case tipOf(ex, optB):
+				nB++
+				tips = append(tips, ex)
+			case tipOf(ex, optF):
+				nF++
+				tips = append(tips, ex)
+			}
+		})
+		okv := nB >= 1 && nF >= 1
+		var calls []ssa.Instruction
+		for _, tv := range tips {
+			calls = append(calls, tv.(ssa.Instruction))
+			if len(ir.Refs(tv)) == 0 {
+				okv = false // fetched and thrown away
+			}
+			for _, r := range ir.Refs(tv) {
+				if ph, isPhi := r.(*ssa.Phi); isPhi {
+					for _, e := range ph.Edges {
+						if e != tv {
+							okv = false // merged with a remembered value
+						}
+					}
+				}
+			}
+		}
+		c.verdict(okv, c.nm(fn)+" | the tip heights are read from the target stores in this call", c.P.Pos(fn.Pos()), "both heights are results of ChainTip calls on the target stores made in this call, used unmerged", "the tip heights the regions are computed from are not (on every path) the results of ChainTip calls made in this call: a remembered value makes a repeated import write the same headers again", c.ats(calls)...)
+	})
+
 	c.rule("C14.V2", "the batch validators look at every header of the batch: blockHeadersImportSourceValidator.ValidateBatch visits indices 1..len-1 and validates each adjacent pair (headers[i-1], headers[i]); filterHeadersImportSourceValidator.ValidateBatch visits 0..len-1 with ValidateSingle; any early way out of either loop returns an error", func() {
 		for _, spec := range []struct {
 			fn, callee string
